@@ -48,7 +48,6 @@ func rprop_dense_with_gradient(evalGradient DenseGradientF, x0 DenseFloat64Vecto
   // initialize values
   for i := 0; i < x1.Dim(); i++ {
     step[i]         = step_init
-    gradient_new[i] = 1
     gradient_old[i] = 1
   }
   gradient_is_nan := func(gradient DenseFloat64Vector) bool {
@@ -62,6 +61,13 @@ func rprop_dense_with_gradient(evalGradient DenseGradientF, x0 DenseFloat64Vecto
   // check initial value
   if constraints.Value != nil && !constraints.Value(x1) {
     return x1, fmt.Errorf("invalid initial value: %v", x1)
+  }
+  // evaluate gradient at the initial value
+  if err := evalGradient(x1, gradient_new); err != nil {
+    return x1, err
+  }
+  if gradient_is_nan(gradient_new) {
+    return x1, fmt.Errorf("gradient is NaN for initial value: %v", x1)
   }
   for i := 0; i < maxIterations.Value; i++ {
     for i := 0; i < x1.Dim(); i++ {
@@ -102,6 +108,8 @@ func rprop_dense_with_gradient(evalGradient DenseGradientF, x0 DenseFloat64Vecto
         break
       }
     }
+    // accept new position
+    copy(x1, x2)
     // evaluate stop criterion
     if (Norm(gradient_new) < epsilon.Value) {
       break;
@@ -117,7 +125,6 @@ func rprop_dense_with_gradient(evalGradient DenseGradientF, x0 DenseFloat64Vecto
         }
       }
     }
-    copy(x1, x2)
   }
   return x1, nil
 }
